@@ -16,9 +16,33 @@ fn usage() -> ! {
     std::process::exit(2)
 }
 
+/// With VH_TRACE_LOG=1 a logger at level Trace is installed that FORMATS every record (and throws the text away): the arguments of
+/// the code's trace! / debug! statements are evaluated as they are under `2a-emulator -vvvv`, so a panic inside one is seen.
+struct FormatAndDrop;
+struct Sink;
+impl std::fmt::Write for Sink {
+    fn write_str(&mut self, _: &str) -> std::fmt::Result {
+        Ok(())
+    }
+}
+impl log::Log for FormatAndDrop {
+    fn enabled(&self, _: &log::Metadata) -> bool {
+        true
+    }
+    fn log(&self, record: &log::Record) {
+        let _ = std::fmt::write(&mut Sink, *record.args());
+    }
+    fn flush(&self) {}
+}
+static LOGGER: FormatAndDrop = FormatAndDrop;
+
 fn main() {
     // panics inside the code under test are data; keep stderr quiet
     std::panic::set_hook(Box::new(|_| {}));
+    if std::env::var("VH_TRACE_LOG").map(|x| x == "1").unwrap_or(false) {
+        let _ = log::set_logger(&LOGGER);
+        log::set_max_level(log::LevelFilter::Trace);
+    }
     let args: Vec<String> = std::env::args().collect();
     if args.len() < 2 {
         usage();
